@@ -546,9 +546,16 @@ def headerLine (st : St) (line : Bytes) : Res St :=
         else if k = kStartKernPairs then .ok { st with kernPairs := true }
         else .ok st
 
+/-- `len(ff) > 0 && strings.HasPrefix(ff[0], "EndCharMetrics")` for `ff := strings.Fields(line)`:
+the end of the character metrics section, indented or not -/
+def isEndCharMetrics (ff : List Bytes) : Bool :=
+  match ff with
+  | [] => false
+  | f :: _ => kEndCharMetrics.isPrefixOf f
+
 /-- the body of the scanner loop -/
 def readLine (st : St) (line : Bytes) : Res St :=
-  if kEndCharMetrics.isPrefixOf line then .ok { st with charMetrics := false }
+  if isEndCharMetrics (fields line) then .ok { st with charMetrics := false }
   else if st.charMetrics then charLine st line
   else headerLine st line
 
